@@ -1,5 +1,6 @@
 import GlmVerif.Spec.Basic
 import GlmVerif.Core.Rename
+import GlmVerif.Core.NanWalk
 /-!
 C01 — vector functions/operators equal the scalar overload applied per component.
 
@@ -24,6 +25,12 @@ structure RelFamily where
   lens : List Nat := [1, 2, 3, 4]
   /-- composite-formula class: `fma(a,b,c)` is read as `a*b + c` on both sides before comparing -/
   composite : Bool := false
+  /-- walk mode: the two overloads ask their questions in different orders (the n-ary NaN-aware selections: the scalar overload is a
+      cascade of `isnan` tests, the vector overload nests the binary function); the trees are compared by the two-tree walk of
+      `Core/TreeEqv.lean` with the NaN-aware oracle of `Core/NanWalk.lean` (no order reasoning: a repeated question keeps its answer, and
+      a comparison with an operand already found to be NaN is false) — on every jointly reachable pair of paths the selected leaves are
+      the same expression -/
+  walk : Bool := false
   deriving Inhabited
 
 def isVecArg (mask k : Nat) : Bool := mask.testBit k
@@ -41,7 +48,8 @@ def RelFamily.okAt (f : RelFamily) (look : String → List Nat → Unit) (mask L
   let u := look f.vUnit [mask, L]
   (look f.sUnit []).outs.length == 1 && u.outs.length == L &&
     (List.range L).all fun i =>
-      if f.composite then treeOK sameLeaf (u.out i).expandFma (s.rename (sigma mask L i)).expandFma
+      if f.walk then treeEqv impliedNan (fun _ a b => a == b) [] (u.out i) (s.rename (sigma mask L i))
+      else if f.composite then treeOK sameLeaf (u.out i).expandFma (s.rename (sigma mask L i)).expandFma
       else treeOK sameLeaf (u.out i) (s.rename (sigma mask L i))
 
 def RelFamily.ok (f : RelFamily) (look : String → List Nat → Unit) : Bool :=
@@ -98,7 +106,27 @@ def relFamilies : List RelFamily := [
   { fn := "clamp", sUnit := "s_clamp", vUnit := "v_clamp", arity := 3, masks := [7, 1] },
   { fn := "mix", sUnit := "s_mix", vUnit := "v_mix", arity := 3, masks := [7, 3] },
   { fn := "smoothstep", sUnit := "s_smoothstep", vUnit := "v_smoothstep", arity := 3, masks := [7, 4] },
-  { fn := "fma", sUnit := "s_fma", vUnit := "v_fma", arity := 3, masks := [7], composite := true } ]
+  { fn := "fma", sUnit := "s_fma", vUnit := "v_fma", arity := 3, masks := [7], composite := true },
+  -- ext twins (ext/scalar_common.inl vs ext/vector_common.inl).  Not in the table: fmin/fmax of FOUR arguments — the scalar overload
+  -- computes min(min(a,b),…) in another association than the vector overload, so equality needs NaN reasoning and order reasoning
+  -- together (neither oracle alone decides it); their units are still traced and run against glm, and C11 has their bit-level model.
+  { fn := "fmin", sUnit := "s_fmin", vUnit := "v_fmin", arity := 2, masks := [3, 1] },
+  { fn := "fmax", sUnit := "s_fmax", vUnit := "v_fmax", arity := 2, masks := [3, 1] },
+  { fn := "fmin3", sUnit := "s_fmin3", vUnit := "v_fmin3", arity := 3, masks := [7], lens := [1, 2, 3], walk := true },
+  { fn := "fmax3", sUnit := "s_fmax3", vUnit := "v_fmax3", arity := 3, masks := [7], lens := [1, 2, 3], walk := true },
+  { fn := "fclamp", sUnit := "s_fclamp", vUnit := "v_fclamp", arity := 3, masks := [7, 1], lens := [1, 2, 3] },
+  { fn := "min3", sUnit := "s_min3", vUnit := "v_min3", arity := 3, masks := [7] },
+  { fn := "max3", sUnit := "s_max3", vUnit := "v_max3", arity := 3, masks := [7] },
+  { fn := "min4", sUnit := "s_min4", vUnit := "v_min4", arity := 4, masks := [15] },
+  { fn := "max4", sUnit := "s_max4", vUnit := "v_max4", arity := 4, masks := [15] },
+  { fn := "gmin3", sUnit := "s_gmin3", vUnit := "v_min3", arity := 3, masks := [7] },
+  { fn := "gmax3", sUnit := "s_gmax3", vUnit := "v_max3", arity := 3, masks := [7] },
+  { fn := "gmin4", sUnit := "s_gmin4", vUnit := "v_min4", arity := 4, masks := [15] },
+  { fn := "gmax4", sUnit := "s_gmax4", vUnit := "v_max4", arity := 4, masks := [15] },
+  { fn := "clampT", sUnit := "s_clampT", vUnit := "v_clampT", arity := 1, masks := [1] },
+  { fn := "repeat", sUnit := "s_repeat", vUnit := "v_repeat", arity := 1, masks := [1] },
+  { fn := "mirrorClamp", sUnit := "s_mirrorClamp", vUnit := "v_mirrorClamp", arity := 1, masks := [1] },
+  { fn := "mirrorRepeat", sUnit := "s_mirrorRepeat", vUnit := "v_mirrorRepeat", arity := 1, masks := [1] } ]
 
 /-! operators: operand `k`, component `j` -/
 def normMask (m : Nat) : Nat := if m ≥ 4 then m - 4 else m
